@@ -148,6 +148,11 @@ func (s *Service) Subscribe(ctx context.Context, ns libshare.Namespace) (<-chan 
 						log.Debugw("blobsub: canceling subscription due to user ctx closing", "namespace", ns.ID())
 						return
 					}
+					if s.ctx.Err() != nil {
+						// service is stopping, a failing retrieval must not be retried forever
+						log.Debugw("blobsub: canceling subscription due to service ctx closing", "namespace", ns.ID())
+						return
+					}
 					if err == nil {
 						// operation successful, break the loop
 						break
